@@ -194,15 +194,34 @@ def _run_history(item):
     d = tempfile.mkdtemp(prefix='c20_')
     try:
         crlf = sum(map(ord, hid)) % 3 == 0
-        cli.materialise(d, concretise(fs0, crlf=crlf))
-        snaps = [cli.snapshot(d)]
+        # the budget may be in either folder layout (./config or ./tally/config, commands run from the project folder):
+        # what a command may touch does not depend on it
+        new_layout = (sum(map(ord, hid)) // 3) % 2 == 1
+        prefix = 'tally/' if new_layout else ''
+        tree = concretise(fs0, prefix=prefix, crlf=crlf)
+        if new_layout:
+            tree['tally/config/.tally-schema'] = '1\n'
+        cli.materialise(d, tree)
+
+        def snap():
+            raw = cli.snapshot(d)
+            if not new_layout:
+                return raw
+            out = {}
+            for k, v in raw.items():
+                if k in ('tally/', 'tally/config/.tally-schema'):
+                    continue
+                out[k[len(prefix):] if k.startswith(prefix) else '../' + k] = v
+            return out
+        snaps = [snap()]
         rcs = []
         written = []
         for c in cmds:
-            r = cli.run_tally(CMD_ARGS[c], cwd=d, root=d)
+            args = [a.replace('data/card.csv', prefix + 'data/card.csv') for a in CMD_ARGS[c]]
+            r = cli.run_tally(args, cwd=d, root=d)
             rcs.append(r['rc'])
             written.append(sorted({e['path'] for e in r['effects'] if 'path' in e}))
-            snaps.append(cli.snapshot(d))
+            snaps.append(snap())
         states = [abstract(s, st, crlf=crlf) for s in snaps]
         frames = [direct_frame(c, snaps[k], snaps[k + 1]) for k, c in enumerate(cmds)]
         return {'id': hid, 'cmds': cmds, 'states': states, 'frames': frames, 'rcs': rcs, 'written': written}
